@@ -130,14 +130,23 @@ def run_config(ps, M, shim, native_root=None, enc=None):
 
 
 def e2(run, tier):
-    def worker(ai):
+    """One loaded module per worker serves stores of all five algorithms in turn (as one process using several
+    stores would), so state shared between instances is exercised as well."""
+    def worker(d):
         M = loader.load("filehashstore.py")
         shim = symfs.Shim()
         shim.install(M)
-        ps = PathSym([AV == ai, DV >= 1, DV <= 6, WV >= 1, WV <= 4])
-        recs = ps.explore(lambda p: run_config(p, M, shim))
+        ps = PathSym([DV == d, WV >= 1, WV <= 4, AV >= 0, AV < len(ALGOS)])
+        hist = []
+
+        def one(p):
+            r = run_config(p, M, shim)
+            hist.append((r["depth"], r["width"], r["algo"]))
+            r["history"] = list(hist)
+            return r
+        recs = ps.explore(one)
         return recs, ps.st.as_dict()
-    outs = par_explore(worker, list(range(len(ALGOS))))
+    outs = par_explore(worker, list(range(1, 7)))
     for recs, st in outs:
         run.add_stats(st)
         for r in recs:
@@ -147,21 +156,25 @@ def e2(run, tier):
             run.reach["layout-ok" if not r["bad"] else "layout-differs"] += 1
             if r["bad"]:
                 sig = "fixed script under a configuration :: " + "+".join(sorted(set(b[0] for b in r["bad"])))
-                run.fail(sig, dict(config=(r["depth"], r["width"], r["algo"]), failing=r["bad"]),
-                         dict(harness="tree", depth=r["depth"], width=r["width"], algo=r["algo"]))
+                run.fail(sig, dict(config=(r["depth"], r["width"], r["algo"]), failing=r["bad"],
+                                   stores_opened_before_in_this_process=r["history"][:-1][-6:]),
+                         dict(harness="tree", depth=r["depth"], width=r["width"], algo=r["algo"], history=r["history"]))
 
 
 def replay_tree(payload):
+    """native: one unpatched module serves the same sequence of stores (each on a fresh scratch directory)"""
     MN = loader.load("filehashstore.py")
     import logging
     logging.disable(logging.CRITICAL)
     root = scratch_root()
     try:
-        ps = PathSym([DV == payload["depth"], WV == payload["width"], AV == ALGOS.index(payload["algo"])])
-        recs = ps.explore(lambda p: run_config(p, MN, None, native_root=root))
-        r = recs[0]
-        return bool(r["bad"]), "native run (unpatched code, real file system) of the script under depth=%d width=%d %s: %s" % (
-            r["depth"], r["width"], r["algo"], r["bad"])
+        r = None
+        for (d, w_, a) in payload.get("history") or [(payload["depth"], payload["width"], payload["algo"])]:
+            ps = PathSym([DV == d, WV == w_, AV == ALGOS.index(a)])
+            r = ps.explore(lambda p: run_config(p, MN, None, native_root=root))[0]
+        return bool(r["bad"]), ("native run (unpatched code, real file system) of the script under depth=%d width=%d %s "
+                                "after %d earlier stores in the same process: %s" % (
+                                    r["depth"], r["width"], r["algo"], len(payload.get("history") or [1]) - 1, r["bad"]))
     finally:
         shutil.rmtree(root, ignore_errors=True)
 
